@@ -72,14 +72,22 @@ def request (r : R) : Option (Nat × Nat × Nat) :=
   | .read => some (r.datalen, r.buflen - r.datalen, Gen.Netbuf.readMin)
   | _ => none
 
+/-- "Resize the buffer if needed": `if ((R->buflen < len) && netbuf_read_resize_buffer(R, len))` -/
+def growIfNeeded (r : R) (len : Nat) : Res R :=
+  if r.buflen < len then resize r len else pure r
+
+/-- "Move data to start of buffer if needed": `if (R->buflen - R->bufpos < len) { memmove … }` -/
+def compactIfNeeded (r : R) (len : Nat) : Res R := do
+  let room ← sub r.buflen r.bufpos
+  if room < len then compact r else pure r
+
 /-- `netbuf_read_wait(R, len, …)` -/
 def wait (r : R) (len : Nat) : Res R :=
   if r.pending ≠ .none then .contract else do
   let avail ← sub r.datalen r.bufpos
   if len ≤ avail then pure { r with pending := .immediate } else do
-  let r1 ← if r.buflen < len then resize r len else pure r
-  let room ← sub r1.buflen r1.bufpos
-  let r2 ← if room < len then compact r1 else pure r1
+  let r1 ← growIfNeeded r len
+  let r2 ← compactIfNeeded r1 len
   doread { r2 with waitlen := len }
 
 /-- `callback_success` -/
@@ -132,19 +140,14 @@ def run (r : R) : List ROp → Res (R × List ROut)
     pure (r, o :: os)
 
 /-- The part of the transport's contract (C06: `min ≤ n ≤ buflen` of the request being completed) that
-refers to the request: every `data` completion in `ops` fits the request which is outstanding when it
-arrives. -/
+refers to the request: a `data` completion fits the request which is outstanding when it arrives. -/
+def fits (r : R) : ROp → Prop
+  | .net (.data d) => ∀ off len min, request r = some (off, len, min) → min ≤ d.length ∧ d.length ≤ len
+  | _ => True
+
+/-- every completion in `ops` fits the request outstanding at that moment -/
 def transportOK (r : R) : List ROp → Prop
   | [] => True
-  | op :: ops =>
-    (match op with
-     | .net (.data d) =>
-        match request r with
-        | some (_, len, min) => min ≤ d.length ∧ d.length ≤ len
-        | none => True
-     | _ => True) ∧
-    (match step r op with
-     | .ok (r', _) => transportOK r' ops
-     | _ => True)
+  | op :: ops => fits r op ∧ ∀ r' o, step r op = .ok (r', o) → transportOK r' ops
 
 end Percival.Model.NetbufRead
